@@ -1,7 +1,7 @@
-(* C07 — no sequence of received frames can stop, stall or permanently clog the stack (J1939-21 model). *)
-From J1939 Require Import Base CodecGlue Model21.
-From J1939.gen Require Import Codec Tp21Gen CaGen.
-From J1939P Require Import CodecProofs Flat FilterProofs RobustProofs TimeoutProofs.
+(* C07 — no sequence of received frames can stop, stall or permanently clog the stack (J1939-21 and J1939-22 models). *)
+From J1939 Require Import Base CodecGlue Model21 Model22.
+From J1939.gen Require Import Codec Tp21Gen CaGen Tp22Gen.
+From J1939P Require Import CodecProofs Flat FilterProofs RobustProofs TimeoutProofs MpgProofs PoolProofs RobustProofs22.
 
 (* T07.3: the transport pass over ANY session tables (whatever traffic created them), at ANY instant, hands on
    a wake-up time strictly in the future or raises: the job loop cannot busy-spin on protocol state *)
@@ -36,3 +36,19 @@ Theorem C07_exceptions_contained : forall n now id ext remote err data,
   exists r, fres (listener n now id ext remote err data) = RDone r.
 Proof. exact listener_contains_exceptions. Qed.
 Print Assumptions C07_exceptions_contained.
+
+(* T07.3 (J1939-22): the FD transport pass — receive sessions, multi-PG buffers and originator sessions in ANY state
+   with ANY counters (e.g. after a CTS that points beyond the last segment) — hands on a wake-up time strictly in
+   the future or raises *)
+Theorem C07_fd_job_pass_makes_progress : forall m now k,
+  cfg22_ok (cfg22 m) -> (forall m' nw', now < nw' -> good22 (k m' nw')) -> good22 (dll_job22 m now k).
+Proof. exact dll_job22_progress. Qed.
+Print Assumptions C07_fd_job_pass_makes_progress.
+Theorem C07_fd_job_pass_never_spins : forall m now,
+  cfg22_ok (cfg22 m) -> good22 (dll_job22 m now (fun m' nw' => Done m' (nw' - now))).
+Proof. exact dll_job22_never_spins. Qed.
+Print Assumptions C07_fd_job_pass_never_spins.
+Theorem C07_fd_default_configuration_ok : forall maxp civ biv,
+  (forall v, civ = Some v -> 0 < v) -> (forall v, biv = Some v -> 0 < v) -> cfg22_ok (cfg22 (init_node22 maxp civ biv)).
+Proof. exact init22_cfg_ok. Qed.
+Print Assumptions C07_fd_default_configuration_ok.
